@@ -42,6 +42,14 @@ def configs(tier, seed):
                 continue
             for seq in seqs:
                 out.append(dict(h="history", op=kind + lt, key=f"history/{kind}/{lt}/" + ">".join(seq), kind=kind, lt=lt, seq=seq, n=3))
+            # the same histories on an evenly spaced grid, with set_prms alternating between scalars and per-cohort arrays
+            for seq in seqs:
+                if "prms" in seq and len(seq) <= 3:
+                    for first in ("scalar", "array"):
+                        out.append(dict(h="history", op=kind + lt + "u", key=f"history/{kind}/{lt}/unit/{first}/" + ">".join(seq), kind=kind, lt=lt, seq=seq, n=3, grid="unit", first=first))
+    for lt in REAL:
+        for order in ("ab", "ba"):
+            out.append(dict(h="definition_system", op=lt, key=f"definition_system/{lt}/set_prms_order={order}", kind="idsm", lt=lt, n=3, order=order))
     for lt in REAL:
         for iters in ([2, 3] if tier == "quick" else [2, 3, 4]):
             out.append(dict(h="system_loop", op=lt, key=f"system_loop/{lt}/iters={iters}", kind="idsm", lt=lt, iters=iters, n=3))
@@ -58,11 +66,20 @@ def ctx_setup(cfg, c):
     c.purify_div = True
 
 
-def _prms(w, lt, tag):
+def _prms(w, lt, tag, kind="scalar", dims=None):
     out = {}
     for name in REAL[lt]:
-        out[name] = w.real(f"{name}_{tag}", default=DEF[name] * (1 + 0.37 * (len(tag) + ord(tag[-1]) % 5)))
-        w.assume(w.gt(out[name], 0))
+        if kind == "scalar":
+            out[name] = w.real(f"{name}_{tag}", default=DEF[name] * (1 + 0.37 * (len(tag) + ord(tag[-1]) % 5)))
+            w.assume(w.gt(out[name], 0))
+        else:
+            from flodym import FlodymArray
+
+            n = dims["t"].len
+            A = w.arr(f"{name}_{tag}", (n,), default=lambda idx, name=name: DEF[name] * (1 + 0.45 * idx[0] + 0.1 * len(tag)))
+            for x in A.flat:
+                w.assume(w.gt(x, 0))
+            out[name] = FlodymArray(dims=dims.get_subset(("t",)), values=A)
     return out
 
 
@@ -94,11 +111,21 @@ def run(cfg, w):
     import flodym.lifetime_models as lm
 
     n, kind, lt = cfg["n"], cfg["kind"], cfg["lt"]
-    y, dt, b = dsm.make_grid(w, n, "uneven")
+    y, dt, b = dsm.make_grid(w, n, cfg.get("grid", "uneven"))
     dims = dsm.make_dims(y, {"r": 2})
     shape = dims.shape
+    if cfg["h"] == "definition_system":
+        return _definition_system(cfg, w, dims)
     if cfg["h"] == "history":
-        prm = _prms(w, lt, "p0")
+        kinds_cycle = ["scalar", "array"] if cfg.get("first") == "scalar" else ["array", "scalar"] if cfg.get("first") else ["scalar"]
+        nset = [0]
+
+        def next_kind():
+            k = kinds_cycle[nset[0] % len(kinds_cycle)]
+            nset[0] += 1
+            return k
+
+        prm = _prms(w, lt, "p0", next_kind(), dims)
         driver = w.arr("d0", shape)
         model = getattr(lm, lt)(dims=dims, **prm)
         st = dsm.build_stock(kind, dims, lifetime=model, **({"inflow": driver} if kind == "idsm" else {"stock": driver}))
@@ -108,7 +135,7 @@ def run(cfg, w):
                 driver = w.arr(f"d{i + 1}", shape)
                 drv_arr.set_values(driver.copy())
             elif op == "prms":
-                prm = _prms(w, lt, f"p{i + 1}")
+                prm = _prms(w, lt, f"p{i + 1}", next_kind(), dims)
                 st.lifetime_model.set_prms(**prm)
             elif op == "read_sf":
                 st.lifetime_model.sf
@@ -157,3 +184,27 @@ def run(cfg, w):
         want = _fresh("idsm", dims, lt, prm_now, inflow_now)
         _compare(w, f"iter{it}", _results(mfa.stocks["use"]), want)
         w.ob_arr_eq(f"iter{it}:outflow_flow", mfa.flows["use => sysenv"].values, want["outflow"])
+
+
+def _definition_system(cfg, w, dims):
+    """two dynamic stocks of the same class and dimensions built from definitions: each keeps its own lifetime"""
+    import flodym.lifetime_models as lm
+    from flodym import StockDefinition, make_empty_stocks, Process
+    from flodym.stocks import InflowDrivenDSM
+
+    lt = cfg["lt"]
+    procs = {"sysenv": Process(name="sysenv", id=0), "use": Process(name="use", id=1), "reuse": Process(name="reuse", id=2)}
+    defs = [StockDefinition(name="a", process="use", dim_letters=("t", "r"), subclass=InflowDrivenDSM, lifetime_model_class=getattr(lm, lt)),
+            StockDefinition(name="b", process="reuse", dim_letters=("t", "r"), subclass=InflowDrivenDSM, lifetime_model_class=getattr(lm, lt))]
+    stocks = make_empty_stocks(stock_definitions=defs, processes=procs, dims=dims)
+    w.ob("one_stock_per_definition", list(stocks) == ["a", "b"])
+    P = {k: _prms(w, lt, "p" + k) for k in "ab"}
+    D = {k: w.arr("d" + k, dims.shape) for k in "ab"}
+    for k in cfg["order"]:
+        stocks[k].lifetime_model.set_prms(**P[k])
+    for k in "ab":
+        stocks[k].inflow.set_values(D[k].copy())
+    for k in "ab":
+        stocks[k].compute()
+    for k in "ab":
+        _compare(w, f"stock_{k}", _results(stocks[k]), _fresh("idsm", dims, lt, P[k], D[k]))
